@@ -173,7 +173,10 @@ def check_format(prog, src, width, res, desc, family):
 
 DEGENERATE = [b'', b'\n', b'  ', b'\n\n\n', b'-- c', b'-- c\n', b'--[[ a\nb ]]', b'--[[ a\nb ]]\n', b'x=1', b'x=1 ', b'x=1 -- c',
               b'// c\n', b'\t', b'x=1\n\n\n', b'-- a\n-- b\n', b';', b';;\n', b'x=1;', b'return', b'return 1', b'f()',
-              b'::g::', b'do end', b'if (a) b=1', b'if (a) b=1 else c=2', b'if (a) b=1 -- c']
+              b'::g::', b'do end', b'if (a) b=1', b'if (a) b=1 else c=2', b'if (a) b=1 -- c',
+              # multi-line literals whose inner lines end in blanks / TABs, or are blank: the literal's value is the text
+              b'rows=[[\n##  \n#   \n####]]\n', b'print[==[score: \nlives: \t\n]==]\n', b'do\n s=[[ \n\t\n  ]]\nend\n',
+              b'if a then\n f([=[x \n  y\t \n]=], "a \\\n b  ")\nend\n', b's="a  \\\n  b"\n', b'x=[[a\r\n  b  \r\n]]\n']
 
 
 # ---------------------------------------------------------------- (b) no silent loss
